@@ -263,8 +263,17 @@ impl PanicInfo {
     pub fn signature(&self) -> String {
         format!("panic:{}:{}:{}", self.file, self.line, self.class.as_str())
     }
+    /// False for panics raised by harness code (paths of the harness workspace
+    /// are relative: `core/src/..`, `checks/cNN/src/..`) or deliberately
+    /// (`HarnessAbort`). Library and std locations count as library panics.
     pub fn in_repo(&self) -> bool {
-        !self.file.starts_with("/verif") && !self.file.starts_with("vf/") && self.class != PanicClass::Harness
+        let f = self.file.as_str();
+        !(self.class == PanicClass::Harness
+            || f.starts_with("/verif")
+            || f.starts_with("checks/")
+            || f.starts_with("core/src")
+            || f.contains("/harness/")
+            || f.contains("/harness-ft/"))
     }
 }
 
@@ -320,8 +329,11 @@ pub fn install_panic_hook() {
                 .location()
                 .map(|l| (l.file().to_string(), l.line()))
                 .unwrap_or_else(|| ("?".into(), 0));
+            // paths relative to the repository root, also in scratch mode
+            let root = format!("{}/", repo_dir().trim_end_matches('/'));
             let file = file
-                .strip_prefix("/repo/")
+                .strip_prefix(root.as_str())
+                .or_else(|| file.strip_prefix("/repo/"))
                 .map(|s| s.to_string())
                 .unwrap_or(file);
             let payload = info.payload();
